@@ -38,6 +38,7 @@ def c15_rf19(run):
     rf_tables.rf19_mem(run)
     run.min_instances('RF19', 150)
     rf_callmode.rf19c(run)
+    rf_callmode.rf19d(run)
 
 
 def c15_rf16h(run):
@@ -126,6 +127,7 @@ def c11_vocab(run):
     run.min_instances('RF15', 3)
     rf_vocab.rf7j(run)
     run.min_instances('RF7j', 8)
+    rf_vocab.rf7k(run)
 
 
 def c10_vocab(run):
@@ -134,6 +136,7 @@ def c10_vocab(run):
     rf_vocab.rf22(run)
     run.min_instances('RF22', 1)
     rf_vocab.rf22b(run)
+    rf_vocab.rf7k(run)
     rf_vocab.rf37(run, 'mir', ('MIR_output', 'MIR_output_item', 'MIR_output_insn', 'MIR_output_op', 'MIR_output_module'))
     run.min_instances('RF37', 6)
     rf_vocab.rf15(run)
